@@ -9,12 +9,14 @@ ap.add_argument("--change", required=True); ap.add_argument("--needs", required=
 ap.add_argument("--first", default=None); ap.add_argument("--strengthening", default="—"); ap.add_argument("--why-missed", default=None)
 ap.add_argument("--unconfirmed-ok", action="store_true")
 a = ap.parse_args()
-src = "/tmp/seed/%s/out/change%s" % (a.prop, a.k)
+ROOT = os.environ.get("SEED_ROOT", "/tmp/seed")
+TAG = os.environ.get("SEED_TAG", "")      # e.g. "r2-" for the second round of seeding agents
+src = "%s/%s/out/change%s" % (ROOT, a.prop, a.k)
 log = os.path.join(src, "confirm.log")
 conf = open(log).read() if os.path.exists(log) else ""
 if "RESULT: CONFIRMED" not in conf and not a.unconfirmed_ok:
     sys.exit("not confirmed: run tools/confirm_seed.sh %s %s first\n%s" % (a.prop, a.k, conf[-600:]))
-dst = os.path.join(V, "seeded", "%s-%s" % (a.prop, a.k))
+dst = os.path.join(V, "seeded", "%s-%s%s" % (a.prop, TAG, a.k))
 shutil.rmtree(dst, ignore_errors=True)
 os.makedirs(dst)
 shutil.copy(os.path.join(src, "patch.diff"), dst)
@@ -35,9 +37,9 @@ for l in r.stdout.splitlines():
     if l.startswith("CAUGHT-BY:"):
         caught = [x for x in l.split(":", 1)[1].split() if x != "-"]
 report = [l.strip() for l in r.stdout.splitlines() if "instance" in l]
-meta = {"id": "%s-%s" % (a.prop, a.k), "property": a.prop, "change": a.change, "needs": a.needs,
-        "what_i_ran": ["tools/confirm_seed.sh %s %s  (scratch worktree /tmp/seed/%s: suite with the change, demo with, demo without)" % (a.prop, a.k, a.prop),
-                       "tools/run_seed.py seeded/%s-%s/patch.diff  (git -C /repo apply; ./check <all> --tier quick; git -C /repo checkout -- .)" % (a.prop, a.k)],
+meta = {"id": "%s-%s%s" % (a.prop, TAG, a.k), "property": a.prop, "change": a.change, "needs": a.needs,
+        "what_i_ran": ["tools/confirm_seed.sh %s %s  (scratch worktree %s/%s: suite with the change, demo with, demo without)" % (a.prop, a.k, ROOT, a.prop),
+                       "tools/run_seed.py seeded/%s-%s%s/patch.diff  (git -C /repo apply; ./check <all> --tier quick; git -C /repo checkout -- .)" % (a.prop, TAG, a.k)],
         "confirmation": [l for l in conf.splitlines() if l.startswith(("SUITE", "DEMO", "RESULT")) or "re-run" in l],
         "caught_first": (a.first.split() if a.first is not None else caught), "caught_now": caught, "reports": report[:6],
         "strengthening": a.strengthening}
